@@ -89,6 +89,35 @@ carries the same CurrLine as the reports, and no generated program had an INCLUD
   Mutation (the seeded one): quick tier 20 VIOLATION lines recorded, 23 of 40 programs rejected (exit 1), unchanged
   tree exit 0; two more mutations: see checks/ext_srclines.py.
 
+Dimension "pending label" (spec/PendLabel.tla, _MC, _Gen, _Trace; vlib/pendlabel.py; checks/ext_pendlabel.py, whose
+docstring has the details) - added after a seeded change (as.c Produce_Code: the memory about the most recent label is
+dropped only by statements with a label field or with code, `&& (*LabPart || CodeLen != 0)`) passed the check: on a
+padding target `entry:` alone on a line at an odd address, then `shared entry`, then a word-aligned instruction makes
+CodeSHARED write the unpadded value while InsertPadding -> LabelModify moves the label afterwards; listing table, MAP
+and the code show the padded value, the share file (-c / -p / -a) the address of the pad byte.  Listing_Trace judges
+share lines against final values, but no generated program had a statement BETWEEN a label-only line and the statement
+that gets padded.  Now:
+  * PendLabel.tla: LabelHandle / LabelModify / LabelReset, InsertPadding, CodeSHARED's snapshot, Forgets (which
+    statements end the pending state; ResetRule "labelled-or-code" = the named deviation), two passes after a forward
+    reference; declarative side over the text of a block: ShareFinal / CodeFinal (every share line, every reference in
+    the code = the symbol's FINAL value), FinalAsText / MovedIff (the final value is the address the following code
+    was laid down at iff the label is still pending when that statement is padded - manual, PADDING), CopiesFinal,
+    LayoutSane, LineEntries.
+  * (M) PendLabel_MC: every program of one block (label line at an even / odd address x <= 2 intervening statements
+    of 11 kinds x following statement {aligned instruction, DC.W, DC.B, DS.W, ALIGN, END}) x forward SHARED x target
+    {68000, MSP430}: 6384 programs, 131 k states (thorough + pairs of blocks: 75 k programs, 2.0 M states);
+    PendLabel_MC_dev.cfg (the seeded shape) is refuted.
+  * (G) PendLabel_Gen: the 1120 (quick; thorough 2640) blocks dealt to programs of 14 + the block in front of END, with a
+    reference table and a SHARED of every symbol, every second pair of programs with a forward SHARED (two passes);
+    quick 80 runs (40 programs x 2 targets, share format round robin), thorough 558 (x 3 formats).
+  * (V) PendLabel_Trace: every share line, listing-table symbol and MAP symbol is judged against the word the parsed
+    CODE FILE holds for that symbol (key phase "pendlabel", deviation "report-not-final-value"); differences from the
+    model's prediction (which value is final, share line order, line:address entries of the padded statements) are
+    SPEC-DRIFT.  One run per program also goes through Listing_Trace (hook witness; symbols of the END block).
+  Mutation (the seeded one): quick tier exit 1, 74 violations (20 VIOLATION lines printed; 50 events in 44 of 80 runs
+  rejected by PendLabel_Trace, 24 SYM events by Listing_Trace), unchanged tree exit 0; InsertPadding without
+  LabelModify: SPEC-DRIFT only (46 runs; all reports agree on the unmoved value).
+
 Defects of the pinned tree d9f49b6, repaired in /repo meanwhile (known_findings/C19.json, status fixed): (1) -listradix is ignored for addresses and code of
 the listing (hex digits in columns of the requested radix' width), proposed_fixes/C19-listradix-ignored.diff: on
 the unfixed tree a rejected listing with radix != 16 is read again with hexadecimal digits and, if TLC accepts it
